@@ -59,6 +59,10 @@ def unit_lines(r, tier):
     lines = []
     for t in itertools.product(range(4), repeat=6):
         lines.append("ver compat " + " ".join(map(str, t)))
+    # numbers where a packed, narrowed or signed comparison would differ from the componentwise one
+    big = [0, 1, 2, 255, 256, 32767, 32768, 65535, 65536, 65537, 131072, 2**31 - 2, 2**31 - 1]
+    for wM, wm, hM, hm in itertools.product([0, 1, 2, 65536], big, [0, 1, 2, 65536], big):
+        lines.append("ver compat %d %d 0 %d %d 0" % (wM, wm, hM, hm))
     fixed = ["", "1", "1.", "1.2", "1.2.", "1.2.3", "1.2.3-", "1.2.3-rc", "1.2.3.4", ".1.2.3", "1..2.3",
              "1.2.-3", "1.2.3.", "a.b.c", "1.2.c", "1.2.3c", " 1.2.3", "1. 2.3", "1.2. 3", "1.2.3 ",
              "+1.2.3", "-1.2.3", "1.-2.3", "1.2.--3", "-0.0.0", "01.02.03", "1.2.2147483647",
@@ -102,6 +106,9 @@ def pick_version(r, have, res):
         return f"{a}.{b + r.randrange(1, 3)}.0"
     if k < 0.75:
         res.dist("req:major-differs")
+        if r.random() < 0.3:
+            # a different major hidden behind a huge or wrapping minor
+            return f"{max(a - 1, 0) if a > 0 else a + 1}.{r.choice([65536, 65536 + b, 131072 + b, 2**31 - 1, 2**16 * (a + 1)])}.0"
         return f"{a + r.choice([-1, 1, 2])}.{b}.{c}" if a > 0 else f"{a + 1}.{b}.{c}"
     if k < 0.87:
         res.dist("req:malformed")
